@@ -52,10 +52,38 @@ pub fn is_temporal(v: &V) -> bool {
     matches!(v, V::Date(_) | V::Time(_) | V::Timestamp(_) | V::Interval(_))
 }
 
-/// identical values: same variant, floats by bit pattern, everything else by equality of the
-/// canonical text (`val_sx` is injective on non-temporal values; temporal by Display)
+/// identical values, STRUCTURALLY: same variant; floats by bit pattern; DATE/TIME/TIMESTAMP by their
+/// fields and INTERVAL by text and components (Debug of the structs) — never through `Display`, which
+/// both sides of a round trip share
 pub fn same_val(a: &V, b: &V) -> bool {
+    if is_temporal(a) || is_temporal(b) {
+        return format!("{:?}", a) == format!("{:?}", b);
+    }
     val_sx(a) == val_sx(b)
+}
+/// text of a value for reports and bags: `val_sx`, temporal values by their fields
+pub fn val_struct(v: &V) -> String {
+    if is_temporal(v) {
+        format!("{:?}", v).replace(' ', "")
+    } else {
+        val_sx(v)
+    }
+}
+/// SQL text of a TIME from its fields (not through `Display`)
+pub fn time_text(t: &vibesql_types::Time) -> String {
+    let mut s = format!("{:02}:{:02}:{:02}", t.hour, t.minute, t.second);
+    if t.nanosecond != 0 {
+        let mut f = format!("{:09}", t.nanosecond);
+        while f.ends_with('0') {
+            f.pop();
+        }
+        s.push('.');
+        s.push_str(&f);
+    }
+    s
+}
+pub fn date_text(d: &vibesql_types::Date) -> String {
+    format!("{:04}-{:02}-{:02}", d.year, d.month, d.day)
 }
 pub fn same_row(a: &[V], b: &[V]) -> bool {
     a.len() == b.len() && a.iter().zip(b).all(|(x, y)| same_val(x, y))
@@ -70,7 +98,7 @@ pub fn is_nonfinite(v: &V) -> bool {
 
 const STRS: &[&str] = &[
     "", "a", "it's", "\"q\"", "a'b''c", "é", "漢字", "😀 emoji", "semi;colon", "line\nbreak", "back\\slash",
-    "-- dash", "NULL", " lead", "trail ", "tab\tx", "\u{0}nul", "ÿ\u{7ff}\u{800}\u{ffff}\u{10000}\u{10ffff}",
+    "-- dash", "NULL", "007", "0.050", "00", "1e-5", " lead", "trail ", "tab\tx", "\u{0}nul", "ÿ\u{7ff}\u{800}\u{ffff}\u{10000}\u{10ffff}",
 ];
 
 pub fn gen_string(r: &mut Rng, max: usize) -> String {
@@ -105,12 +133,12 @@ fn gen_f64(r: &mut Rng) -> f64 {
         7 => f64::MIN_POSITIVE,
         8 => f64::from_bits(1 + r.below(1000)), // subnormal
         9 => f64::from_bits(r.next()),
-        10 => r.range(-1000, 1000) as f64 / 8.0,
+        10 => *r.pick(&[0.05, 0.001, -0.0625, 1e-5, 5e-300, -2.5e-310, 1.0000000000000002, 0.1 + 0.2, 123456789.000001]),
         _ => (r.range(-1_000_000, 1_000_000) as f64) * 0.001,
     }
 }
 fn gen_f32(r: &mut Rng) -> f32 {
-    match r.below(10) {
+    match r.below(11) {
         0 => f32::NAN,
         1 => f32::INFINITY,
         2 => f32::NEG_INFINITY,
@@ -119,6 +147,7 @@ fn gen_f32(r: &mut Rng) -> f32 {
         5 => f32::MAX,
         6 => f32::from_bits(1 + r.below(100) as u32),
         7 => f32::from_bits(r.next() as u32),
+        8 => *r.pick(&[0.05f32, 0.001, 1e-30, -7.5e-40]),
         _ => r.range(-1000, 1000) as f32 / 4.0,
     }
 }
@@ -133,19 +162,22 @@ fn gen_i64(r: &mut Rng) -> i64 {
     }
 }
 pub fn gen_date(r: &mut Rng) -> vibesql_types::Date {
-    let (y, m, d) = match r.below(5) {
+    let (y, m, d) = match r.below(8) {
         0 => (1, 1, 1),
         1 => (9999, 12, 31),
         2 => (2024, 2, 29),
+        3 => (0, 1, 1),
+        4 => (1000, 10, 10),
+        5 => (999, 9, 9),
         _ => (r.range(1900, 2100) as i32, r.range(1, 12) as u8, r.range(1, 28) as u8),
     };
     vibesql_types::Date::new(y, m, d).unwrap()
 }
 pub fn gen_time(r: &mut Rng) -> vibesql_types::Time {
+    // fractions with leading zeros (1 ..= 99_999_999 ns) and trailing zeros, both ends, and random
     let ns = match r.below(4) {
         0 => 0,
-        1 => 999_999_999,
-        2 => 120_000_000,
+        1 | 2 => *r.pick(&[1u32, 10, 999, 1_000, 50_000_000, 99_999_999, 100_000_000, 999_999_999, 5_000, 120_000_000, 1_001_000]),
         _ => r.below(1_000_000_000) as u32,
     };
     vibesql_types::Time::new(r.below(24) as u8, r.below(60) as u8, r.below(60) as u8, ns).unwrap()
@@ -180,7 +212,14 @@ pub fn gen_value(r: &mut Rng, t: &DataType, nullable: bool) -> V {
         DataType::Date => V::Date(gen_date(r)),
         DataType::Time { .. } => V::Time(gen_time(r)),
         DataType::Timestamp { .. } => V::Timestamp(vibesql_types::Timestamp::new(gen_date(r), gen_time(r))),
-        DataType::Interval { .. } => V::Interval(vibesql_types::Interval::new(format!("{}", r.range(0, 99)))),
+        DataType::Interval { .. } => V::Interval(vibesql_types::Interval::new(match r.below(6) {
+            0 => format!("{}", r.range(0, 99)),
+            1 => format!("{}-{}", r.range(0, 20), r.range(0, 11)),
+            2 => format!("{} {:02}:{:02}:{:02}.{:03}", r.range(0, 30), r.range(0, 23), r.range(0, 59), r.range(0, 59), r.range(0, 999)),
+            3 => format!("{} YEAR", r.range(1, 9)),
+            4 => format!("{:02}:{:02}", r.range(0, 23), r.range(0, 59)),
+            _ => "0".into(),
+        })),
         _ => V::Null,
     }
 }
@@ -351,7 +390,7 @@ pub fn gen_db(r: &mut Rng, max_rows: u64, extra_types: &[&str]) -> GenDb {
             .filter(|(_, c)| {
                 matches!(
                     c.data_type,
-                    DataType::Integer | DataType::Bigint | DataType::Varchar { .. } | DataType::DoublePrecision | DataType::Smallint
+                    DataType::Integer | DataType::Bigint | DataType::Varchar { .. } | DataType::DoublePrecision | DataType::Smallint | DataType::Time { .. } | DataType::Date | DataType::Timestamp { .. }
                 )
             })
             .map(|(i, _)| i)
@@ -359,7 +398,8 @@ pub fn gen_db(r: &mut Rng, max_rows: u64, extra_types: &[&str]) -> GenDb {
         let nidx = if idxable.is_empty() { 0 } else { r.below(3) };
         for k in 0..nidx {
             let c1 = *r.pick(&idxable);
-            let mut colsql = format!("C{}{}", c1, if r.chance(1, 4) { " DESC" } else { "" });
+            let is_str = matches!(schema.columns[c1].data_type, DataType::Varchar { .. });
+            let mut colsql = if is_str && r.chance(1, 3) { format!("C{}({})", c1, 1 + r.below(4)) } else { format!("C{}{}", c1, if r.chance(1, 4) { " DESC" } else { "" }) };
             if r.chance(1, 4) {
                 let c2 = *r.pick(&idxable);
                 if c2 != c1 {
